@@ -83,7 +83,7 @@ func jobs(id, tier string) []job {
 			plans = []plan{{[]int{7}, 8}, {[]int{3, 4}, 8}, {[]int{2, 3, 4}, 8}, {[]int{2, 2, 2, 3}, 8}, {[]int{10}, 8}, {[]int{4, 5}, 8}, {[]int{3, 3, 3}, 8}}
 		}
 	case "C02":
-		opt.Reshape, opt.BulkPairs = true, true
+		opt.Reshape, opt.BulkPairs, opt.Writes = true, true, true
 		if tier == "quick" {
 			plans = []plan{{[]int{6}, 2}, {[]int{3, 4}, 2}, {[]int{2, 3, 2}, 1}}
 		} else {
@@ -146,7 +146,7 @@ func SpecC02() *vf.Check {
 }
 
 func specC02() *vf.Check {
-	return spec("C02", "the C01 state space extended with Reshape transitions (every ordered factorisation into <=4 factors); in every state: Contiguous() vs adjacency of the model offsets, Unroll values and aliasing (Go-backed: alias iff contiguous), ReshapeFast errs iff non-contiguous, Reshape errs iff counts differ, MustReshape panics iff Reshape errs, every same-count Reshape is row-major, Maximum/Minimum, and AddTo/Scale/ApplyFunc1 with the view as destination and contiguous / stepped / row-gapped / self sources, whole storage compared afterwards; integer helpers are checked over all vectors in the pre-step.",
+	return spec("C02", "the C01 state space extended with Reshape transitions (every ordered factorisation into <=4 factors); in every state: every Apply/Apply1/ApplySlice/CopyFrom/Set write as in C01, and Contiguous() vs adjacency of the model offsets, Unroll values and aliasing (Go-backed: alias iff contiguous), ReshapeFast errs iff non-contiguous, Reshape errs iff counts differ, MustReshape panics iff Reshape errs, every same-count Reshape is row-major, Maximum/Minimum, and AddTo/Scale/ApplyFunc1 with the view as destination and contiguous / stepped / row-gapped / self sources, whole storage compared afterwards; integer helpers are checked over all vectors in the pre-step.",
 		[]string{"two-array operations exist for 6 of the 8 element types (as generated)", "depth bound as reported"})
 }
 
